@@ -171,6 +171,9 @@ def morton_expect(rep, inst, bits, h, where, rid):
                 # value bits above the coordinate type's width: 0, or the sign bit for signed types (0 on the non-negative domain)
                 good = (b == 0) or (signed and b == ('in', cj, w - 1))
             if not good:
+                if isinstance(b, tuple) and b[0] == 'top' and any(isinstance(d[0], tuple) and d[0] and d[0][0] in ('poison', 'undef') for d in b[1]):
+                    rep.fail(rid, inst, where, "index bit %d is undefined: the computation shifts or indexes outside its type for part of the stated domain (LLVM reduced it to poison)" % pos, {"bit": pos})
+                    return False
                 if isinstance(b, tuple) and b[0] == 'top':
                     raise AnalysisBroken("C14 %s: index bit %d is computed by operations the bit-provenance domain does not model (%s); cannot decide - re-confirm by reading" % (inst, pos, showbit(b, h)[:100]))
                 rep.fail(rid, inst, where, "index bit %d should be bit %d of coordinate %d, is %s" % (pos, i, j, showbit(b, h)), {"bit": pos})
@@ -318,7 +321,7 @@ def check(tier):
     # the published position must also be where a layout conversion WRITES each element (rule C05.b of relayout/c05)
     from . import c05
     c05.declare(rep)
-    for r in ("C05.f", "C05.a", "C05.cuda", "C05.c", "C05.d", "C05.e"):
+    for r in ("C05.g", "C05.f", "C05.a", "C05.cuda", "C05.c", "C05.d", "C05.e"):
         rep.rules.pop(r, None)
     c05.run_conversions(only(rep), "quick")
     rep.assumptions = ["coordinates non-negative and below 2^floor(64/N) (the property's domain)",
